@@ -277,6 +277,9 @@ pub fn replay_dec(lines: &[Value], trace_path: &str) -> Summary {
 fn dec_event(m: &[Vec<f64>], tol: Option<f64>, kind: &str, it: usize, sm: &mut Summary) -> Value {
     let n = m.len();
     {
+        // history: the same matrix first with a looser tolerance (and without the test) on this thread - what an
+        // earlier call accepted must not leak into a later, stricter call
+        if let Some(t) = tol { if it % 3 == 0 { let _ = decompose(m, Some(if t.is_finite() { t * 1e6 + 1.0 } else { t })); let _ = decompose(m, None); } }
         // f64 run, and the same call with print_debug_info on: same outcome, same bits (C17)
         let out = decompose(m, tol);
         let out_dbg = decompose_dbg(m, tol, true);
